@@ -293,6 +293,48 @@ def bounded(seed, quick):
                 near_tie = any(abs(conf_r(q, int(n_), float(p_)) - c_) < 1e-9 for q in (r_, r_ + 1, best))
                 if r_ != best and not near_tie:
                     return ev, dict(what="order_stats('r') (broadcast call) does not return the largest rank meeting the confidence", p=float(p_), c=float(c_), n=int(n_), got=r_, want=int(best))
+    # order statistics with 2-D arguments in any memory layout (C order, Fortran order, transposed views): every element solves its own (c, r, n) / (p, c, n) problem
+    from scipy.stats import beta as _beta
+    C2 = np.array([[0.5, 0.9, 0.95], [0.6, 0.75, 0.99]])
+    R2 = np.array([[1, 2, 1], [3, 1, 2]])
+    N2 = np.array([[40, 90, 60], [120, 35, 200]])
+    for lay_name, lay in (("C order", lambda a: np.ascontiguousarray(a)), ("Fortran order", lambda a: np.asfortranarray(a)), ("transposed view", lambda a: np.ascontiguousarray(a.T).T)):
+        with warnings.catch_warnings():
+            warnings.simplefilter("ignore")
+            pp2 = stats.order_stats("p", c=lay(C2), r=lay(R2), n=lay(N2))
+            rr2 = stats.order_stats("r", p=lay(np.full(C2.shape, 0.9) + 0.01 * R2), c=lay(C2), n=lay(N2))
+        ev += 2
+        if np.shape(pp2) != C2.shape or np.shape(rr2) != C2.shape:
+            return ev, dict(what="order_stats with 2-D arguments (%s) returns shape %s / %s" % (lay_name, np.shape(pp2), np.shape(rr2)))
+        for i_ in range(2):
+            for j_ in range(3):
+                ci_ = binom.sf(R2[i_, j_] - 1, N2[i_, j_], 1 - pp2[i_, j_])
+                if abs(ci_ - C2[i_, j_]) > 1e-8:
+                    return ev, dict(what="order_stats('p') with 2-D arguments in %s: element [%d,%d] does not solve its own confidence statement" % (lay_name, i_, j_),
+                                    p=float(pp2[i_, j_]), confidence_of_p=float(ci_), requested=float(C2[i_, j_]))
+                pij = 0.9 + 0.01 * R2[i_, j_]
+                with warnings.catch_warnings():
+                    warnings.simplefilter("ignore")
+                    rs_ = int(stats.order_stats("r", p=pij, c=float(C2[i_, j_]), n=int(N2[i_, j_])))
+                if int(rr2[i_, j_]) != rs_:
+                    return ev, dict(what="order_stats('r') with 2-D arguments in %s: element [%d,%d] differs from the scalar call" % (lay_name, i_, j_), got=int(rr2[i_, j_]), scalar=rs_)
+    # two-sided factor for very large samples: the defining chi-square statement P[chi2_(n-1) >= (n-1) (r/k)^2] == c with r from the coverage equation
+    for n_ in (100000, 100001, 100002, 250000, 2000000):
+        for p_ in (0.9, 0.99):
+            ks_ = []
+            for c_ in (0.1, 0.5, 0.9, 0.99):
+                with warnings.catch_warnings():
+                    warnings.simplefilter("ignore")
+                    k_ = float(stats.kdouble(p_, c_, n_))
+                ev += 1
+                from scipy.optimize import brentq as _bq
+                r_ = _bq(lambda x: norm.cdf(1 / np.sqrt(n_) + x) - norm.cdf(1 / np.sqrt(n_) - x) - p_, 0.1, 10, xtol=1e-14)
+                got_c = chi2.sf((n_ - 1) * (r_ / k_) ** 2, n_ - 1)
+                ks_.append(k_)
+                if abs(got_c - c_) > 1e-6:
+                    return ev, dict(what="kdouble for a very large sample: the chi-square statement behind the factor gives confidence %.6f, requested %.6f" % (got_c, c_), p=p_, c=c_, n=n_, k=k_)
+            if not all(a_ < b_ for a_, b_ in zip(ks_, ks_[1:])):
+                return ev, dict(what="kdouble is not increasing in the confidence for n = %d" % n_, p=p_, k=ks_)
     # order statistics 'c': the confidence that the r-th largest of n samples exceeds the p-quantile = P[at least r of n exceed it], exceedance probability 1-p
     from math import comb
     for n_ in (1, 5, 12, 40):
